@@ -189,6 +189,64 @@ Definition snapinv_b (s : state) : Z :=
   if negb (resid_b s) then 36000 else
   if negb (cellops_b s) then 37000 else 0.
 
+(* ---- the weak half (C03_wsnap): the block of o cannot be freed while reader x stays in its critical section:
+   o is protected on the strong side (not destructed ==> not dropped ==> not freed), or its weak count is positive and
+   WEAKED is set (try_dealloc frees only at zero, the cascade frees directly only when WEAKED is clear; a decrement that
+   reaches zero defers a try_dealloc with the reader as witness), or such a try_dealloc is pending *)
+Definition pend_witk (k : pkind) (s : state) (t n o : nat) : bool :=
+  existsb (fun p => pkind_eqb (pk p) k && Nat.eqb (po p) o && wit_b t n p) (pending s).
+Definition wprot_flags (s : state) (t : nat) (x : thr) : list bool :=
+  let fl := prot_flags s t x in
+  mapi_from (fun i ob => negb (freed ob) &&
+                         (nth i fl false || ((0 <? weak (word ob)) && weaked (word ob)) || pend_witk KDealloc s t (serial x) (S i)))
+            0 (objs s).
+Definition wsnap_target (x : thr) (h : handle) : nat :=
+  match h with HWSnap l n => if Nat.eqb n (serial x) then fst l else O | _ => O end.
+Definition frame_wsnap (x : thr) (f : frame) : nat :=
+  match f with FRet c b => wsnap_target x (if b then cok c else cfail c) | _ => O end.
+Definition thr_wsnaps (x : thr) : list nat :=
+  filter (fun o => negb (Nat.eqb o 0)) (map (wsnap_target x) (vars x) ++ map (frame_wsnap x) (frames x)).
+Definition h_weak (o : nat) (h : handle) : Z := match h with HWeak l => if is_ob o l then 1 else 0 | _ => 0 end.
+(* increment_weak runs on an object the thread keeps allocated by itself *)
+Definition incw_top (x : thr) : nat :=
+  match frames x with
+  | (FIncW103 o _ | FIncW104 o _ _ | FIncW105 o _ | FIncW106 o) :: _ => o
+  | _ => O
+  end.
+Definition thr_wcode (s : state) (t : nat) (x : thr) : Z :=
+  let wfl := wprot_flags s t x in
+  let c1 := if negb (incs x) then 0 else
+            match filter (fun o => negb (flag_of wfl o)) (thr_wsnaps x) with
+            | [] => 0
+            | o :: _ => 41000 + Z.of_nat o
+            end in
+  if negb (c1 =? 0) then c1 else
+  let c2 := match incw_top x with
+            | O => 0
+            | o => if (0 <? sumz (h_strong o) (vars x)) || (0 <? sumz (h_weak o) (vars x)) || (incs x && flag_of wfl o) then 0
+                   else 45000 + Z.of_nat o
+            end in
+  if negb (c2 =? 0) then c2 else
+  (* FINDING F5: between the two fetch_adds of an increment from zero the thread is in a section that a pending
+     try_dealloc of the object waits for *)
+  match frames x with
+  | FIncW106 o :: _ => if incs x && pend_witk KDealloc s t (serial x) o then 0 else 46000 + Z.of_nat o
+  | _ => 0
+  end.
+Definition wsnapinv_b (s : state) : Z := first_nz (thr_wcode s) 0 (threads s).
+Fixpoint first_wlost (fl fl' : list bool) (i : nat) : Z :=
+  match fl, fl' with
+  | b :: r, b' :: r' => if b && negb b' then 44000 + Z.of_nat (S i) else first_wlost r r' (S i)
+  | _, _ => 0
+  end.
+Definition wstable_code (s s' : state) (t : nat) (x : thr) : Z :=
+  match nth_error (threads s') t with
+  | Some x' => if incs x && incs x' && Nat.eqb (serial x) (serial x')
+               then first_wlost (wprot_flags s t x) (wprot_flags s' t x') 0 else 0
+  | None => 0
+  end.
+Definition wstable_b (s s' : state) : Z := first_nz (wstable_code s s') 0 (threads s).
+
 (* ---- stability: what is protected for a reader stays protected while the reader stays in the same section *)
 Fixpoint first_lost (fl fl' : list bool) (i : nat) : Z :=
   match fl, fl' with
@@ -239,7 +297,11 @@ Fixpoint check_chain (s : state) (l : list state) : Z :=
   | s' :: r => let c := snapinv_b s' in
                if negb (c =? 0) then c else
                let c2 := stable_b s s' in
-               if negb (c2 =? 0) then c2 else check_chain s' r
+               if negb (c2 =? 0) then c2 else
+               let c3 := wsnapinv_b s' in
+               if negb (c3 =? 0) then c3 else
+               let c4 := wstable_b s s' in
+               if negb (c4 =? 0) then c4 else check_chain s' r
   end.
 
 Fixpoint snapinv_from (s : state) (sched : list Z) (recs : list (list Z)) : list (list Z) :=
